@@ -221,6 +221,10 @@ func (dec *fecDecoder) decode(in fecPacket) (recovered [][]byte) {
 
 	// get the shard heap for this shard id
 	shardId := dec.getShardId(in.seqid())
+	if len(dec.shardSet) == 0 {
+		// no group is held (new decoder, or just re-tuned): this packet defines the position
+		dec.newestShardId = shardId
+	}
 	shard, ok := dec.shardSet[shardId]
 	if !ok {
 		shard = newShardHeap()
